@@ -811,6 +811,19 @@ def case_skl(ctx, lines, expect, cfg):
     Xq = np.array(cfg["Xq"], dtype=float)
     n = len(Xq)
     fitfn = clf.partial_fit if cfg.get("partial") else clf.fit
+    if not cfg.get("partial") and cfg["k"] >= 2 and ntr and cfg["seed"] % 3 == 0:
+        # a USED object: the same classifier has been fitted before on the same rows with the labels rotated by one class
+        # (another observed subset of the declared classes, same size) and asked for probabilities; `fit` starts from
+        # scratch, so everything below must be as for a fresh object
+        y_prior = lab.y([None if i is None else (i + 1) % cfg["k"] for i in cfg["y_idx"]])
+        try:
+            with np.errstate(all="ignore"):
+                clf.fit(Xtr, y_prior, **({} if w is None else dict(sample_weight=w)))
+                clf.predict_proba(Xq)
+                clf.predict(Xq)
+            ctx.count("skl_used_object_prefix")
+        except Exception:  # noqa: BLE001  (an inadmissible earlier training set: no history then)
+            ctx.count("skl_used_object_prefix_raised")
     try:
         if cfg.get("partial") and cfg.get("two_batches") and ntr >= 2:
             h = ntr // 2
